@@ -208,7 +208,8 @@ pub fn snapshot_model(model: &Model, node: Option<&Node>, opts: &SnapOpts) -> Sn
             },
         };
         let key = format!("names@{}|{}", dn.name.to_lowercase(), scope);
-        let val = format!("{} = {}", dn.name, dn.formula);
+        // a leading '=' is accepted and means nothing (the xlsx writer drops it)
+        let val = format!("{} = {}", dn.name, dn.formula.strip_prefix('=').unwrap_or(&dn.formula));
         // duplicates are themselves observable
         let mut k = key.clone();
         let mut n = 1;
